@@ -56,6 +56,11 @@ type Run struct {
 
 // Start parses "--tier x", "--replay f" from os.Args and the VERIF_* environment.
 func Start(prop, level string) *Run {
+	// VERIF_REPORT_AS: the program explores a part of another property (its run.sh sets this together
+	// with VERIF_EVIDENCE_SUFFIX) and reports under that property's id
+	if as := os.Getenv("VERIF_REPORT_AS"); as != "" {
+		prop = as
+	}
 	r := &Run{Prop: prop, Level: level, Tier: "quick", start: time.Now(), known: map[string]Finding{},
 		knownHit: map[string]int{}, viol: map[string]string{}, Exhaustive: true}
 	if t := os.Getenv("VERIF_TIER"); t == "quick" || t == "thorough" {
